@@ -185,6 +185,10 @@ def prepare_xfer(obs, x):
             x.src = NONSEEKABLE_FLAVORS[t.get('flavor', 'bare')](w, x.label, x.data, read_caps=t.get('src_caps'))
     elif x.kind == 'download':
         w.s3.objects[(BUCKET, x.key)] = x.data
+        if t.get('versioned'):
+            # an older version is asked for (extra_args VersionId); the current version is other, longer data
+            w.s3.versions[(BUCKET, x.key)] = {'v1': x.data}
+            w.s3.objects[(BUCKET, x.key)] = payload(4343 + x.idx, len(x.data) + 3)
         dst = t.get('dst', 'path')
         if dst == 'path':
             path = dest_path(tmpdir, x)
@@ -218,6 +222,11 @@ def prepare_xfer(obs, x):
     elif x.kind == 'copy':
         w.s3.objects[(SRC_BUCKET, 'src-' + x.key)] = x.data
         w.s3.labels[(SRC_BUCKET, 'src-' + x.key)] = x.label
+        if t.get('versioned'):
+            # the caller asks for an OLDER version of the source: the key's current version is other data (a bit longer, so that
+            # every range of the requested version also exists in it)
+            w.s3.versions[(SRC_BUCKET, 'src-' + x.key)] = {'v1': x.data}
+            w.s3.objects[(SRC_BUCKET, 'src-' + x.key)] = payload(4242 + x.idx, len(x.data) + 3)
     elif x.kind == 'delete':
         w.s3.objects[(BUCKET, x.key)] = x.data
 
@@ -297,6 +306,22 @@ def run(spec, hang_ok=False):
     else:
         mgr = TransferManager(client, cfg, osutil=osu, executor_cls=exf)
     obs.manager = mgr
+    # lockset monitors on the manager's sliding-window semaphores (the in-memory download window): their state may only be written
+    # under their own lock.  They hang off private attributes, so this engages only where those are found.
+    obs.locksets = []
+    try:
+        from s3transfer.utils import SlidingWindowSemaphore
+        from . import lockset as _ls
+
+        for ex_name in ('_request_executor', '_submission_executor', '_io_executor'):
+            tags = getattr(getattr(mgr, ex_name, None), '_tag_semaphores', None) or {}
+            for sem in tags.values():
+                if type(sem) is SlidingWindowSemaphore:
+                    st = _ls.attach_to_sliding_semaphore(sem)
+                    if st is not None:
+                        obs.locksets.append(st)
+    except Exception:  # noqa - the monitor is optional
+        pass
     obs.gate = None
     gate = (spec.get('plan') or {}).get('gate')
     if gate:
@@ -444,10 +469,14 @@ def submit_one(mgr, x):
         if x.kind == 'upload':
             x.future = mgr.upload(x.src, bucket, x.key, extra_args=extra or None, subscribers=subs)
         elif x.kind == 'download':
+            if t.get('versioned'):
+                extra['VersionId'] = 'v1'
             x.future = mgr.download(bucket, x.key, x.dest, extra_args=extra or None, subscribers=subs)
         elif x.kind == 'copy':
-            x.future = mgr.copy({'Bucket': SRC_BUCKET, 'Key': 'src-' + x.key}, bucket, x.key,
-                                extra_args=extra or None, subscribers=subs)
+            src = {'Bucket': SRC_BUCKET, 'Key': 'src-' + x.key}
+            if t.get('versioned'):
+                src['VersionId'] = 'v1'
+            x.future = mgr.copy(src, bucket, x.key, extra_args=extra or None, subscribers=subs)
         elif x.kind == 'delete':
             x.future = mgr.delete(bucket, x.key, extra_args=extra or None, subscribers=subs)
     except BaseException as e:  # noqa
